@@ -7,6 +7,7 @@
 package mimetype
 
 import (
+	"bufio"
 	"bytes"
 	"encoding/binary"
 	"encoding/hex"
@@ -466,6 +467,37 @@ func vfScratchDir() string {
 		return filepath.Dir(out)
 	}
 	return os.TempDir()
+}
+
+// vfFileNames are the names a file under test gets: DetectFile must look at the bytes only.
+var vfFileNames = []string{"%s.bin", "%s", "%s.js", "%s.json", "%s.svg", "%s.html", "%s.txt", "%s.csv", "%s.xml", "%s.mjs", "%s.png", "%s.zip", "%s.tar.gz", "%s with space.PDF", ".%s", "%s.geojson", "%s.gz"}
+
+// vfWriteFile stores x in the scratch directory under a name chosen by `variant` (extension,
+// no extension, hidden file) and returns the path to hand to DetectFile: the file itself, or a
+// relative-target symlink, or a symlink to a symlink to it.
+func vfWriteFile(stem string, x []byte, variant uint64) string {
+	dir := vfScratchDir()
+	name := fmt.Sprintf(vfFileNames[variant%uint64(len(vfFileNames))], stem)
+	p := filepath.Join(dir, name)
+	if err := os.WriteFile(p, x, 0o644); err != nil {
+		panic(err)
+	}
+	switch (variant / 32) % 4 {
+	case 1:
+		l1 := filepath.Join(dir, stem+".link")
+		os.Remove(l1)
+		if os.Symlink(name, l1) == nil { // relative target
+			return l1
+		}
+	case 2:
+		l1, l2 := filepath.Join(dir, stem+".link1"), filepath.Join(dir, stem+".link2.txt")
+		os.Remove(l1)
+		os.Remove(l2)
+		if os.Symlink(p, l1) == nil && os.Symlink(l1, l2) == nil { // absolute target, chain of two
+			return l2
+		}
+	}
+	return p
 }
 
 // ---------------------------------------------------------------------------------
@@ -949,6 +981,56 @@ func vfRoutes(x []byte, limit uint32, want *MIME) error {
 			return fmt.Errorf("DetectReader over a reader that returns the input in two short reads (boundary %d) under limit %d gives (%s, %v), Detect gives %s", cut, big, vfChainStr(m4), err, wantBig)
 		}
 	}
+	// (e) readers of the standard library (they implement more than io.Reader: Peek, Len, Seek,
+	// WriteTo, ReadAt, ...); same bytes, same limit, and no more than `limit` bytes consumed
+	SetLimit(limit)
+	var (
+		sr       io.Reader
+		kind     string
+		consumed func() int
+	)
+	switch (h >> 16) % 8 {
+	case 0:
+		br := bytes.NewReader(x)
+		sr, kind, consumed = bufio.NewReaderSize(br, 16), "*bufio.Reader (16-byte buffer)", nil
+	case 1:
+		br := bytes.NewReader(x)
+		sr, kind, consumed = bufio.NewReader(br), "*bufio.Reader (4096-byte buffer)", nil
+	case 2:
+		bb := bytes.NewBuffer(append([]byte(nil), x...))
+		sr, kind, consumed = bb, "*bytes.Buffer", func() int { return len(x) - bb.Len() }
+	case 3:
+		st := strings.NewReader(string(x))
+		sr, kind, consumed = st, "*strings.Reader", func() int { return len(x) - st.Len() }
+	case 4:
+		sec := io.NewSectionReader(bytes.NewReader(append(append([]byte("junk"), x...), "trailing junk"...)), 4, int64(len(x)))
+		sr, kind = sec, "*io.SectionReader"
+		consumed = func() int { p, _ := sec.Seek(0, io.SeekCurrent); return int(p) }
+	case 5:
+		lr := &io.LimitedReader{R: bytes.NewReader(append(append([]byte(nil), x...), "trailing junk"...)), N: int64(len(x))}
+		sr, kind, consumed = lr, "*io.LimitedReader", func() int { return len(x) - int(lr.N) }
+	case 6:
+		sr, kind = io.MultiReader(bytes.NewReader(x[:len(x)/3]), strings.NewReader(""), bytes.NewReader(x[len(x)/3:])), "io.MultiReader"
+	default:
+		br := bytes.NewReader(x)
+		sr, kind, consumed = br, "*bytes.Reader", func() int { return len(x) - br.Len() }
+	}
+	m5, err := DetectReader(sr)
+	if err != nil || m5 == nil || vfChainStr(m5) != ws {
+		return fmt.Errorf("DetectReader over a %s under limit %d gives (%s, %v), Detect gives %s", kind, limit, vfChainStr(m5), err, ws)
+	}
+	if consumed != nil {
+		n := consumed()
+		if limit > 0 && n > int(limit) {
+			return fmt.Errorf("DetectReader over a %s under limit %d consumed %d bytes", kind, limit, n)
+		}
+		if wantN := min(len(x), int(limit)); limit > 0 && n < wantN {
+			return fmt.Errorf("DetectReader over a %s under limit %d consumed only %d of the %d header bytes yet answered", kind, limit, n, wantN)
+		}
+		if limit == 0 && n != len(x) {
+			return fmt.Errorf("DetectReader over a %s without limit consumed %d of %d bytes", kind, n, len(x))
+		}
+	}
 	return nil
 }
 
@@ -1019,7 +1101,24 @@ func vfMutate(t *rapid.T, b []byte, maxOps int) []byte {
 	b = append([]byte(nil), b...)
 	ops := rapid.IntRange(0, maxOps).Draw(t, "nmut")
 	for i := 0; i < ops; i++ {
-		switch rapid.IntRange(0, 7).Draw(t, "mut") {
+		switch rapid.IntRange(0, 8).Draw(t, "mut") {
+		case 8: // a literal of the code under test written over / inserted at an offset
+			tok := vfDictTok(t)
+			if rapid.IntRange(0, 3).Draw(t, "atlinestart") == 0 {
+				tok = rapid.SampledFrom([]string{"\n", "\r\n", "\x00", " "}).Draw(t, "lead") + tok
+			}
+			p := rapid.IntRange(0, len(b)).Draw(t, "pos")
+			if rapid.Bool().Draw(t, "hot") {
+				p = min(len(b), rapid.SampledFrom([]int{0, 4, 8, 28, 30, 36, 257, 512, 1024}).Draw(t, "hotpos"))
+			}
+			if rapid.Bool().Draw(t, "overwrite") {
+				if len(b) < p+len(tok) {
+					b = append(b, make([]byte, p+len(tok)-len(b))...)
+				}
+				copy(b[p:], tok)
+			} else {
+				b = append(b[:p], append([]byte(tok), b[p:]...)...)
+			}
 		case 0: // replace a byte
 			if len(b) > 0 {
 				b[rapid.IntRange(0, len(b)-1).Draw(t, "pos")] = rapid.Byte().Draw(t, "val")
@@ -1043,8 +1142,11 @@ func vfMutate(t *rapid.T, b []byte, maxOps int) []byte {
 					p = min(len(b)-4, rapid.SampledFrom([]int{18, 8, 12, 16, 22, 26, 36, 44, 48, 4, 0}).Draw(t, "hotpos"))
 				}
 				v := rapid.SampledFrom(vfHostile).Draw(t, "hostile")
-				if rapid.Bool().Draw(t, "adj") {
+				switch rapid.IntRange(0, 4).Draw(t, "adj") {
+				case 0, 1:
 					v = uint32(len(b)) + uint32(rapid.IntRange(-60, 60).Draw(t, "d"))
+				case 2: // small negative numbers: header-size + v wraps to (almost) nothing
+					v = -uint32(rapid.IntRange(1, 64).Draw(t, "neg"))
 				}
 				if rapid.Bool().Draw(t, "le") {
 					binary.LittleEndian.PutUint32(b[p:], v)
@@ -1125,9 +1227,49 @@ func vfGenTextish(t *rapid.T) string {
 	n := rapid.IntRange(0, 14).Draw(t, "npieces")
 	var sb strings.Builder
 	for i := 0; i < n; i++ {
+		if rapid.IntRange(0, 9).Draw(t, "fromdict") == 0 {
+			sb.WriteString(vfDictTok(t))
+			continue
+		}
 		sb.WriteString(rapid.SampledFrom(vfTextPieces).Draw(t, "piece"))
 	}
 	return sb.String()
+}
+
+// vfDictTok draws one literal of the tree under test (vfDictLits is generated by the driver
+// from the string and byte-slice literals of the staged sources: the fuzzing dictionary).
+func vfDictTok(t *rapid.T) string {
+	if len(vfDictLits) == 0 {
+		return "x"
+	}
+	return vfDictLits[rapid.IntRange(0, len(vfDictLits)-1).Draw(t, "dict")]
+}
+
+// vfDictText are the dictionary entries that are plain printable ASCII without quotes,
+// backslashes, commas or line breaks (safe inside JSON strings, CSV fields, names).
+var (
+	vfDictTextOnce sync.Once
+	vfDictTextList []string
+)
+
+func vfDictText() []string {
+	vfDictTextOnce.Do(func() {
+		for _, s := range vfDictLits {
+			ok := true
+			for i := 0; i < len(s); i++ {
+				if c := s[i]; c < 0x20 || c > 0x7e || c == '"' || c == '\\' || c == ',' {
+					ok = false
+				}
+			}
+			if ok {
+				vfDictTextList = append(vfDictTextList, s)
+			}
+		}
+		if len(vfDictTextList) == 0 {
+			vfDictTextList = []string{"x"}
+		}
+	})
+	return vfDictTextList
 }
 
 // vfBig builds inputs of 70 KB - 2.5 MB whose interesting part is far from the start: scale that
